@@ -3,7 +3,7 @@
 usage: tools/seedstore.py <PROP> <seedN> [result json ...]   (results of tools/seedcheck.py; merged)"""
 import json, os, shutil, sys
 prop, sn = sys.argv[1], sys.argv[2]
-src = '/tmp/%s_%s/%s' % ({'seed3': 'seedb', 'seed4': 'seedb', 'seed5': 'seedc', 'seed6': 'seedc', 'seed7': 'seedd', 'seed8': 'seedd', 'seed9': 'seede', 'seed10': 'seede', 'seed11': 'seedf', 'seed12': 'seedf', 'seed13': 'seedg', 'seed14': 'seedg', 'seed15': 'seedh', 'seed16': 'seedh', 'seed17': 'seedi', 'seed18': 'seedi'}.get(sn, 'seed'), prop, sn)
+src = '/tmp/%s_%s/%s' % ({'seed3': 'seedb', 'seed4': 'seedb', 'seed5': 'seedc', 'seed6': 'seedc', 'seed7': 'seedd', 'seed8': 'seedd', 'seed9': 'seede', 'seed10': 'seede', 'seed11': 'seedf', 'seed12': 'seedf', 'seed13': 'seedg', 'seed14': 'seedg', 'seed15': 'seedh', 'seed16': 'seedh', 'seed17': 'seedi', 'seed18': 'seedi', 'seed19': 'seedj', 'seed20': 'seedj'}.get(sn, 'seed'), prop, sn)
 dst = '/verif/seeded/%s_%s' % (prop, sn)
 os.makedirs(dst, exist_ok=True)
 for f in sorted(os.listdir(src)):
